@@ -230,6 +230,87 @@ theorem C10_decl_reaches (G : TTables) (τ τ' : Tracker) (rid bits sign : Nat) 
   simp only [trackAll, C10_track_int G τ rid bits sign rest hT] at h
   rw [C10_newest_wins G mid _ τ' rid (some (.int bits (sign == 1))) (by rw [resolve_cons]; simp) hn h]
 
+/-! ### the parse loop uses exactly `trackAll` of the instructions it has delivered -/
+
+theorem trackAll_snoc (G : TTables) : ∀ (is : List Inst) (i : Inst) (τ : Tracker),
+    trackAll G (is ++ [i]) τ = (trackAll G is τ).bind (fun τ' => τ'.track G i)
+  | [], i, τ => by
+    simp only [List.nil_append, trackAll, Option.bind_some]
+    cases τ.track G i <;> rfl
+  | j :: is, i, τ => by
+    simp only [List.cons_append, trackAll]
+    cases τ.track G j with
+    | none => rfl
+    | some τ' => exact trackAll_snoc G is i τ'
+
+/-- the instructions among the callback events, oldest first (`tr` is the loop's newest-first event list) -/
+def delivered (tr : List Ev) : List Inst :=
+  tr.reverse.filterMap (fun e => match e with | .inst i => some i | _ => none)
+
+theorem delivered_inst (i : Inst) (tr : List Ev) : delivered (.inst i :: tr) = delivered tr ++ [i] := by
+  simp [delivered, List.filterMap_append]
+
+/-- the parse loop with the tracker argument removed: the tracker is recomputed from the delivered instructions -/
+def parseLoopD (G : Tables) (script : Nat → Action) : Nat → Nat → Nat → DState → List Ev → Run
+  | 0, _, _, _, tr => ⟨.panic "parse: no progress", tr.reverse⟩
+  | fuel + 1, k, idx, d, tr =>
+    match trackAll G.tt (delivered tr) [] with
+    | none => ⟨.panic "tracker: operand index", tr.reverse⟩
+    | some τ =>
+      match parseInst G τ (idx + 1) d with
+      | (.ok i, d1) =>
+        match τ.track G.tt i with
+        | none => ⟨.panic "tracker: operand index", tr.reverse⟩
+        | some _ =>
+          let tr1 := Ev.inst i :: tr
+          match consume (script k) k with
+          | some e => ⟨.err e, tr1.reverse⟩
+          | none => parseLoopD G script fuel (k + 1) (idx + 1) d1 tr1
+      | (.err .complete, _) =>
+        let tr1 := Ev.fin :: tr
+        match consume (script k) k with
+        | some e => ⟨.err e, tr1.reverse⟩
+        | none => ⟨.ok (), tr1.reverse⟩
+      | (.err e, _) => ⟨.err (.inst e), tr.reverse⟩
+      | (.panic s, _) => ⟨.panic s, tr.reverse⟩
+
+/-- **C10 (the context is the delivered prefix).** Whenever the loop's tracker is the fold of `track` over the
+instructions delivered so far, the loop equals the loop that *recomputes* its tracker from those instructions at every
+step; so each width decision is a function of the instructions that precede the literal in this binary, and of
+nothing else. -/
+theorem parseLoop_eq_D (G : Tables) (script : Nat → Action) : ∀ (fuel : Nat) (τ : Tracker) (k idx : Nat) (d : DState)
+    (tr : List Ev), trackAll G.tt (delivered tr) [] = some τ →
+    parseLoop G script fuel τ k idx d tr = parseLoopD G script fuel k idx d tr
+  | 0, _, _, _, _, _, _ => rfl
+  | fuel + 1, τ, k, idx, d, tr, h => by
+    simp only [parseLoop, parseLoopD, h]
+    cases hp : parseInst G τ (idx + 1) d with
+    | mk r d1 =>
+      cases r with
+      | ok i =>
+        simp only
+        cases ht : τ.track G.tt i with
+        | none => rfl
+        | some τ1 =>
+          simp only
+          cases consume (script k) k with
+          | some e => rfl
+          | none =>
+            simp only
+            apply parseLoop_eq_D G script fuel τ1
+            rw [delivered_inst, trackAll_snoc, h]; exact ht
+      | err e => cases e <;> rfl
+      | panic s => rfl
+
+/-- **C10 (whole parse).** From the header on, `parse` runs the tracker-free loop: no state other than the delivered
+instructions of this very binary reaches a width decision. -/
+theorem C10_parse_D (G : Tables) (script : Nat → Action) (bytes : List Nat) (h : Header) (d1 : DState)
+    (h0 : consume (script 0) 0 = none) (h1 : consume (script 1) 1 = none)
+    (hh : parseHeader G (DState.new bytes) = (.ok h, d1)) :
+    parse G script bytes = parseLoopD G script (bytes.length + 1) 2 0 d1 [.header h, .init] := by
+  rw [C10_fresh G script bytes h d1 h0 h1 hh]
+  exact parseLoop_eq_D G script _ [] 2 0 d1 _ rfl
+
 /-- non-vacuity: a prefix with an inert instruction in the middle; the 64-bit declaration survives it -/
 example :
     let G : TTables := ⟨fun o => o == 21 || o == 22 || o == 19, 21, 22, 7⟩
